@@ -65,6 +65,15 @@ pub fn no_conflict(net: &[Link], occs: &[Vec<Occ>], headway: f64) -> Vec<String>
                 if !(opposing_between || hw) {
                     f.push(format!("headway: train {} enters link {} at {} but train {} ahead of it cleared the entry only at {} (headway {})", b + 1, y.link, y.t_in, a + 1, of(x.t_ce), headway));
                 }
+                // exit end: once y's front has really left the link (strictly before y's own release; a holding
+                // closed because the train left the model has ax = out), x's tail had left it a headway earlier
+                if let Some(ya) = y.t_ax {
+                    let real_exit = match y.t_out { Some(yo) => ya < yo, None => true };
+                    let ok = match x.t_out { Some(u) => u + headway <= ya, None => false };
+                    if real_exit && !opposing_between && !ok {
+                        f.push(format!("exit headway: the front of train {} leaves link {} at {} but the tail of train {} ahead of it left the link only at {} (headway {})", b + 1, y.link, ya, a + 1, of(x.t_out), headway));
+                    }
+                }
                 if !(leoo(x.t_ax, y.t_ax) && leoo(x.t_ce, y.t_ce) && leoo(x.t_out, y.t_out)) {
                     f.push(format!("order: train {} follows train {} into link {} but overtakes it inside (front exit {} vs {}, tail entry {} vs {}, release {} vs {})", b + 1, a + 1, y.link, of(y.t_ax), of(x.t_ax), of(y.t_ce), of(x.t_ce), of(y.t_out), of(x.t_out)));
                 }
